@@ -16,12 +16,15 @@ def _one(args):
     import_repo()
     rnd = random.Random(seed * 15485863 + i)
     for attempt in range(3000):
-        n_el = rnd.randint(2, 7) if i % 6 not in (2, 5) else rnd.randint(4, 7)
+        n_el = rnd.randint(2, 7) if i % 6 not in (1, 2, 5) else rnd.randint(4, 7)
         elems = solver_gen.random_chain(rnd, n_el, want_selflock=False, stress=False)
         rev = any(e['kind'] == 'WormGear' and e['rel']['type'] == 'worm' for e in elems[1:])      # a wheel that drives a worm
         fwd = any(e['kind'] == 'WormWheel' and e['rel']['type'] == 'worm' for e in elems[1:])     # a worm that drives a wheel
         if i % 6 == 5 and not rev or i % 6 == 2 and not fwd:
             continue                                    # a fixed share of the instances has a worm stage of either orientation
+        idler = any(e['rel']['type'] == 'gear' and e['teeth'] == elems[j - 1]['teeth'] and e['rel']['arg'] != 1 for j, e in enumerate(elems) if j >= 1)
+        if i % 6 == 1 and not idler:
+            continue                                    # ... and another share a lossy mating whose ratio is exactly 1 (equal teeth)
         if i % 6 not in (2, 5) and any(e['kind'] in ('WormGear',) for e in elems[1:]) and rnd.random() < 0.7:
             continue                                    # the rest: mostly gear trains; worm stages only when not self-locking
         m = elems[0]
